@@ -177,6 +177,13 @@ class FortranAST:
         ech : int
             End character
         """
+        # The columns are those of the statement with its continuation lines joined:
+        # keep the range inside the line of the document it is reported on
+        doc_line = self.file.get_line(ln - 1) if self.file is not None else None
+        if doc_line is not None:
+            sch = min(sch, len(doc_line))
+            if ech is not None:
+                ech = min(ech, len(doc_line))
         # Convert from Editor line numbers 1-base index to LSP index which is 0-based
         self.parse_errors.append(diagnostic_json(ln - 1, sch, ln - 1, ech, msg, sev))
 
